@@ -94,6 +94,10 @@ type Ctx struct {
 	hasQ    bool
 	ifaceTags map[string]int
 	globals []string
+	bound   map[string]bool // names of quantifier-bound variables
+	qinst   map[string][]*qTemplate // quantified assumptions indexed by the array they read
+	qdone   map[string]bool
+	axiomLine map[int]bool // indices of lines that are global axioms (included in a query only when relevant)
 	pending []Term // definitional facts to be asserted (they may mention bound variables' skolems)
 }
 
@@ -101,7 +105,8 @@ func NewCtx() *Ctx {
 	c := &Ctx{
 		faSeen: map[string]bool{}, faIDs: map[string]int{}, faDecl: map[string]bool{},
 		memDecl: map[string]bool{}, typeIDs: map[string]int{}, funDecl: map[string]bool{},
-		trusted: map[string]bool{}, dropped: map[string]bool{}, ifaceTags: map[string]int{},
+		trusted: map[string]bool{}, dropped: map[string]bool{}, ifaceTags: map[string]int{}, axiomLine: map[int]bool{},
+		bound: map[string]bool{}, qinst: map[string][]*qTemplate{}, qdone: map[string]bool{},
 	}
 	c.lines = append(c.lines,
 		"(declare-sort Iface 0)",
@@ -182,6 +187,127 @@ func (c *Ctx) assume(t Term) {
 		return
 	}
 	c.emit("(assert " + t + ")")
+	if strings.Contains(t, "(forall ") {
+		c.registerQuant(t)
+	}
+}
+
+// qTemplate: an assumed formula  guards => forall v:BV64. body  whose body reads
+// array arr at index v or off+v. When code or a contract later reads arr at a
+// ground index i, the instance body[v:=i] is asserted (generation-time
+// instantiation: the solvers' E-matching does not see through bit-vector
+// index arithmetic).
+type qTemplate struct {
+	guards []string
+	v      string
+	body   []string // tokens
+}
+
+func (c *Ctx) registerQuant(t Term) {
+	toks := sexprTokens(t)
+	var walk func(ts []string, guards []string)
+	walk = func(ts []string, guards []string) {
+		if len(ts) < 3 || ts[0] != "(" {
+			return
+		}
+		switch ts[1] {
+		case "=>":
+			// ( => G X )
+			gEnd := 2
+			if ts[2] == "(" {
+				gEnd = matchParen(ts, 2)
+			}
+			g := joinSexpr(ts[2 : gEnd+1])
+			walk(ts[gEnd+1:len(ts)-1], append(append([]string{}, guards...), g))
+		case "and":
+			i := 2
+			for i < len(ts)-1 {
+				e := i
+				if ts[i] == "(" {
+					e = matchParen(ts, i)
+				}
+				walk(ts[i:e+1], guards)
+				i = e + 1
+			}
+		case "!":
+			e := 2
+			if ts[2] == "(" {
+				e = matchParen(ts, 2)
+			}
+			walk(ts[2:e+1], guards)
+		case "forall":
+			bEnd := matchParen(ts, 2)
+			b := ts[3:bEnd]
+			if len(b) != 8 || b[3] != "_" || b[4] != "BitVec" || b[5] != "64" {
+				return
+			}
+			v := b[1]
+			body := ts[bEnd+1 : len(ts)-1]
+			if len(body) > 2 && body[0] == "(" && body[1] == "!" {
+				e := 2
+				if body[2] == "(" {
+					e = matchParen(body, 2)
+				}
+				body = body[2 : e+1]
+			}
+			// arrays read at v or (bvadd X v)
+			for i := 0; i+2 < len(body); i++ {
+				if body[i] == "(" && body[i+1] == "select" {
+					aS := i + 2
+					aE := aS
+					if body[aS] == "(" {
+						aE = matchParen(body, aS)
+					}
+					idx := body[aE+1:]
+					direct := idx[0] == v
+					viaAdd := len(idx) > 3 && idx[0] == "(" && idx[1] == "bvadd" && (func() bool {
+						e := matchParen(idx, 0)
+						return idx[e-1] == v
+					})()
+					if direct || viaAdd {
+						arr := joinSexpr(body[aS : aE+1])
+						tpl := &qTemplate{guards: guards, v: v, body: body}
+						c.qinst[arr] = append(c.qinst[arr], tpl)
+					}
+				}
+			}
+		}
+	}
+	walk(toks, nil)
+}
+
+// instantiateAt emits the instances of the registered quantified assumptions
+// that read array arr, for the ground index term idx.
+func (c *Ctx) instantiateAt(arr Term, idx Term) {
+	tpls := c.qinst[arr]
+	if len(tpls) == 0 {
+		return
+	}
+	for _, t := range sexprTokens(idx) {
+		if c.bound[t] {
+			return // not a ground term
+		}
+	}
+	for _, tpl := range tpls {
+		key := fmt.Sprintf("%p|%s", tpl, idx)
+		if c.qdone[key] {
+			continue
+		}
+		c.qdone[key] = true
+		out := make([]string, len(tpl.body))
+		for i, t := range tpl.body {
+			if t == tpl.v {
+				out[i] = idx
+			} else {
+				out[i] = t
+			}
+		}
+		inst := joinSexpr(out)
+		for i := len(tpl.guards) - 1; i >= 0; i-- {
+			inst = "(=> " + tpl.guards[i] + " " + inst + ")"
+		}
+		c.pending = append(c.pending, inst)
+	}
 }
 
 func (c *Ctx) declFun(name string, args []string, ret string) {
